@@ -1,6 +1,554 @@
-(* Mgmt/Proofs.v — lemmas about the management model. *)
-From Mgmt Require Import Model.
+(* Mgmt/Proofs.v — theorems about the management model (Model.v) against the specification predicates (Spec.v).
+   The two external functions (C06's RIB->FIB flattening and face clean-up) and the localhop switch are Section
+   variables: every theorem holds for all of them. *)
+From Mgmt Require Import Model Spec Tables.
 Open Scope N_scope.
 
 Lemma consts_match_model_ok : consts_match_model = true.
 Proof. vm_compute. reflexivity. Qed.
+
+(* facts about the translated constants, decided by computation; if the source changes one of them these fail *)
+Lemma local_only_flags :
+  k_ContentStoreModule_local_only = true /\ k_FaceModule_local_only = true /\ k_FIBModule_local_only = true /\
+  k_ForwarderStatusModule_local_only = true /\ k_StrategyChoiceModule_local_only = true /\ k_RIBModule_local_only = false.
+Proof. vm_compute. repeat split. Qed.
+Lemma run_guard_flags : k_run_localhop_guarded = true /\ k_run_min_extra = 2.
+Proof. vm_compute. split; reflexivity. Qed.
+Lemma plen_is_2 : plen = 2%nat.
+Proof. vm_compute. reflexivity. Qed.
+
+(* innermost-first case split on the matches occurring in a hypothesis *)
+Ltac destr_in H :=
+  match type of H with
+  | context [match ?x with _ => _ end] =>
+      lazymatch x with
+      | context [match _ with _ => _ end] => fail
+      | _ => destruct x eqn:?
+      end
+  end.
+Ltac cases_of H := repeat destr_in H; try discriminate H.
+Ltac inv_ok H := inversion H; subst; clear H.
+Ltac closed_bool H := vm_compute in H; discriminate H.
+
+
+(* ---------- helper lemmas ---------- *)
+Lemma comp_is_eq c s : comp_is c s = true -> c = gcomp s.
+Proof. unfold comp_is. apply comp_eqb_spec. Qed.
+
+Lemma is_prefix_firstn p : forall n, is_prefix p n = true -> firstn (length p) n = p.
+Proof.
+  induction p as [|c p IH]; intros [|d n]; simpl; intros H; try reflexivity; try discriminate.
+  apply andb_true_iff in H as [H1 H2]. apply comp_eqb_spec in H1. subst. f_equal. apply IH. exact H2.
+Qed.
+Lemma firstn_succ_nth {A} (l : list A) : forall k x, nth_error l k = Some x -> firstn (S k) l = firstn k l ++ [x].
+Proof.
+  induction l as [|a l IH]; intros [|k] x H; simpl in *; try discriminate.
+  - inversion H. reflexivity.
+  - f_equal. apply IH. exact H.
+Qed.
+
+Lemma strategy_versions_in l sc avail :
+  strategy_versions l sc = Some avail -> exists s, In (s, avail) l /\ sc = gcomp s.
+Proof.
+  induction l as [|[s vs] l IH]; simpl; intros H; [discriminate|].
+  destruct (comp_is sc s) eqn:E.
+  - inversion H; subst. exists s. split; [left; reflexivity | apply comp_is_eq; exact E].
+  - destruct (IH H) as [s' [Hin Heq]]. exists s'. split; [right; exact Hin | exact Heq].
+Qed.
+
+Lemma fold_max_in l : forall v, In (fold_left N.max l v) (v :: l).
+Proof.
+  induction l as [|x l IH]; intros v; simpl; [left; reflexivity|].
+  destruct (IH (N.max v x)) as [H|H].
+  - destruct (N.max_spec v x) as [[_ E]|[_ E]]; rewrite E in *; [right; left; exact H | left; exact H].
+  - right; right; exact H.
+Qed.
+Lemma max_version_in avail v : max_version avail = Some v -> In v avail.
+Proof.
+  destruct avail as [|x r]; simpl; intros H; [discriminate|]. inversion H. apply fold_max_in.
+Qed.
+Lemma existsb_eqb_in v l : existsb (N.eqb v) l = true -> In v l.
+Proof.
+  intros H. apply existsb_exists in H as [x [Hin E]]. apply N.eqb_eq in E. subst. exact Hin.
+Qed.
+
+Lemma known_accept sn sc avail v :
+  is_prefix strategy_prefix sn = true -> nth_error sn (length strategy_prefix) = Some sc ->
+  strategy_versions k_strategies sc = Some avail -> In v avail ->
+  known_strategy (firstn (length strategy_prefix + 1) sn ++ [version_comp v]) = true.
+Proof.
+  intros Hp Hn Hs Hv.
+  destruct (strategy_versions_in _ _ _ Hs) as [s [Hin Heq]]. subst sc.
+  replace (length strategy_prefix + 1)%nat with (S (length strategy_prefix)) by lia.
+  rewrite (firstn_succ_nth _ _ _ Hn), (is_prefix_firstn _ _ Hp).
+  unfold known_strategy. apply existsb_exists. exists (s, avail). split; [exact Hin|].
+  apply existsb_exists. exists v. split; [exact Hv|]. cbn [fst].
+  rewrite <- app_assoc. apply name_eqb_refl.
+Qed.
+
+Lemma strat_known_set t n s : strat_known t = true -> known_strategy s = true -> strat_known (strat_set t n s) = true.
+Proof.
+  unfold strat_known. intros Ht Hs. induction t as [|[m x] t IH]; simpl in *.
+  - rewrite Hs. reflexivity.
+  - apply andb_true_iff in Ht as [H1 H2]. destruct (name_eqb m n); simpl.
+    + rewrite Hs, H2. reflexivity.
+    + rewrite H1. apply IH. exact H2.
+Qed.
+Lemma strat_known_unset t n : strat_known t = true -> strat_known (strat_unset t n) = true.
+Proof.
+  unfold strat_known. intros Ht. induction t as [|[m x] t IH]; simpl in *; [reflexivity|].
+  apply andb_true_iff in Ht as [H1 H2]. destruct (name_eqb m n); simpl; [exact H2 | rewrite H1; apply IH; exact H2].
+Qed.
+Lemma root_set t n s : root_has_strategy t = true -> root_has_strategy (strat_set t n s) = true.
+Proof.
+  unfold root_has_strategy. intros Ht. induction t as [|[m x] t IH]; simpl in *; [discriminate|].
+  destruct (name_eqb m n); simpl.
+  - exact Ht.
+  - apply orb_true_iff in Ht as [H|H]; [rewrite H; reflexivity | rewrite (IH H); apply orb_true_r].
+Qed.
+Lemma root_unset t n : n <> [] -> root_has_strategy t = true -> root_has_strategy (strat_unset t n) = true.
+Proof.
+  unfold root_has_strategy. intros Hn Ht. induction t as [|[m x] t IH]; simpl in *; [discriminate|].
+  destruct (name_eqb m n) eqn:E; simpl.
+  - apply name_eqb_spec in E. subst m.
+    apply orb_true_iff in Ht as [H|H]; [|exact H]. apply name_eqb_spec in H. contradiction.
+  - apply orb_true_iff in Ht as [H|H]; [rewrite H; reflexivity | rewrite (IH H); apply orb_true_r].
+Qed.
+
+Lemma forallb_face_put (P : faceT -> bool) l g : forallb P l = true -> P g = true -> forallb P (face_put l g) = true.
+Proof.
+  intros Hl Hg. induction l as [|f l IH]; simpl in *; [reflexivity|].
+  apply andb_true_iff in Hl as [H1 H2]. destruct (f_id f =? f_id g); simpl.
+  - rewrite Hg, H2. reflexivity.
+  - rewrite H1. apply IH. exact H2.
+Qed.
+Lemma forallb_face_del (P : faceT -> bool) l id : forallb P l = true -> forallb P (face_del l id) = true.
+Proof.
+  intros Hl. induction l as [|f l IH]; simpl in *; [reflexivity|].
+  apply andb_true_iff in Hl as [H1 H2]. destruct (f_id f =? id); simpl; [exact H2 | rewrite H1; apply IH; exact H2].
+Qed.
+Lemma face_get_forallb (P : faceT -> bool) l id f : forallb P l = true -> face_get l id = Some f -> P f = true.
+Proof.
+  intros Hl. induction l as [|g l IH]; simpl in *; [discriminate|].
+  apply andb_true_iff in Hl as [H1 H2]. destruct (f_id g =? id); intros H; [inversion H; subst; exact H1 | apply IH; assumption].
+Qed.
+
+Lemma face_get_id l id f : face_get l id = Some f -> f_id f = id.
+Proof.
+  induction l as [|g l IH]; simpl; [discriminate|].
+  destruct (f_id g =? id) eqn:E; intros H; [inversion H; subst; apply N.eqb_eq; exact E | apply IH; exact H].
+Qed.
+Lemma face_get_put l id f g : face_get l id = Some f -> f_id g = f_id f -> face_get (face_put l g) (f_id f) = Some g.
+Proof.
+  intros Hg Hid. pose proof (face_get_id _ _ _ Hg) as Hf. subst id.
+  induction l as [|x l IH]; simpl in *; [discriminate|].
+  destruct (f_id x =? f_id f) eqn:E.
+  - rewrite Hid, E. simpl. rewrite Hid, N.eqb_refl. reflexivity.
+  - rewrite Hid, E. simpl. rewrite E. apply IH. exact Hg.
+Qed.
+
+Lemma wrap64_small z : (0 <= z < two63)%Z -> wrap64 z = z.
+Proof.
+  intros H. unfold wrap64. rewrite Z.mod_small; unfold two63, two64 in *; lia.
+Qed.
+
+(* the forwarder-state invariants that management must keep *)
+Definition strat_ok (st : state) : bool := strat_known (s_strat st) && root_has_strategy (s_strat st).
+(* only NDNLP link services carry a scheme other than null/internal (true of every face the daemon creates) *)
+Definition face_wf (f : faceT) : bool := f_ndnlp f || (f_rscheme f =? sch_null) || (f_rscheme f =? sch_internal).
+Definition faces_wf (st : state) : bool := forallb face_wf (s_faces st).
+Definition inv (st : state) : bool := strat_ok st && faces_usable st && cs_sane st && faces_wf st.
+
+(* the floor accepted by faces/update and faces/create exceeds the largest overhead; the capacity bound fits an int *)
+Lemma bounds_ok :
+  max_overhead < k_FaceModule_update_min_mtu /\ max_overhead < k_FaceModule_create_min_mtu /\
+  k_FaceModule_update_min_mtu <= k_max_ndn_packet_size /\
+  (Z.of_N k_ContentStoreModule_config_max_capacity < two63)%Z.
+Proof. vm_compute. repeat split; congruence. Qed.
+
+Section Proofs.
+  Variable rib_to_fib : ribT -> name -> fibT -> fibT.
+  Variable face_cleanup : N -> ribT -> fibT -> ribT * fibT.
+  Variable allow : bool.
+
+  Notation rib_module := (rib_module rib_to_fib).
+  Notation face_module := (face_module face_cleanup).
+  Notation run := (run rib_to_fib face_cleanup allow).
+
+  (* ------------------------------------------------------------------------------------------------
+     mgmt_reject_pure: anything but a ControlResponse with status 200 leaves the state untouched *)
+  Definition pure (st : state) (o : outcome) : Prop :=
+    forall st' vs' r, o = Ok st' vs' r -> accepted r = false -> st' = st.
+
+  Ltac pure_tac unf :=
+    intros st' vs' r H Hacc; unf; cbv beta zeta in H; cases_of H; inv_ok H;
+    first [reflexivity | cbv beta iota delta [accepted] in Hacc; closed_bool Hacc].
+
+  Ltac unf_rib H := unfold Model.rib_module, rib_register, rib_unregister, rib_announce, rib_list, with_params, ctl in H.
+  Ltac unf_fib H := unfold fib_module, fib_add, fib_remove_cmd, fib_list, with_params, ctl in H.
+  Ltac unf_strat H := unfold strat_module, strat_set_cmd, strat_unset_cmd, strat_list, with_params, ctl in H.
+  Ltac unf_cs H := unfold cs_module, cs_config, cs_info, with_params, ctl in H.
+  Ltac unf_status H := unfold status_module, ctl in H.
+  Ltac unf_face H := unfold Model.face_module, face_create, face_update, face_destroy, face_list, face_query, with_params, ctl in H.
+
+  Lemma rib_module_pure st vs c : pure st (rib_module st vs c).
+  Proof. pure_tac ltac:(unf_rib H). Qed.
+  Lemma fib_module_pure st vs c : pure st (fib_module st vs c).
+  Proof. pure_tac ltac:(unf_fib H). Qed.
+  Lemma strat_module_pure st vs c : pure st (strat_module st vs c).
+  Proof. pure_tac ltac:(unf_strat H). Qed.
+  Lemma cs_module_pure st vs c : pure st (cs_module st vs c).
+  Proof. pure_tac ltac:(unf_cs H). Qed.
+  Lemma status_module_pure st vs c : pure st (status_module st vs c).
+  Proof. pure_tac ltac:(unf_status H). Qed.
+  Lemma face_module_pure st vs c : pure st (face_module st vs c).
+  Proof. pure_tac ltac:(unf_face H). Qed.
+
+  (* Run only selects a module (or answers / drops by itself) *)
+  Lemma run_cases st vs c (P : outcome -> Prop) :
+    P (Ok st vs RNone) -> P Panic -> P (ctl st vs c Thread_Run_st_Unknown_module no_args) ->
+    P (cs_module st vs c) -> P (face_module st vs c) -> P (fib_module st vs c) -> P (rib_module st vs c) ->
+    P (status_module st vs c) -> P (strat_module st vs c) -> P (run st vs c).
+  Proof.
+    intros. unfold Model.run. cbv zeta.
+    repeat match goal with |- P (match ?x with _ => _ end) => destruct x end; assumption.
+  Qed.
+
+  Theorem run_pure st vs c : pure st (run st vs c).
+  Proof.
+    apply run_cases; try (intros st' vs' r H Hacc; first [discriminate H | inv_ok H; reflexivity]);
+      auto using rib_module_pure, fib_module_pure, strat_module_pure, cs_module_pure, status_module_pure, face_module_pure.
+  Qed.
+
+  (* ------------------------------------------------------------------------------------------------
+     every ControlResponse carries 200 or an error status 4xx/5xx (the codes are the translated ones) *)
+  Definition classed (o : outcome) : Prop := forall st' vs' r, o = Ok st' vs' r -> spec_status_class r = true.
+  Ltac classed_tac unf :=
+    intros st' vs' r H; unf; cbv beta zeta in H; cases_of H; inv_ok H;
+    first [reflexivity | cbv beta iota delta [spec_status_class]; vm_compute; reflexivity].
+  Lemma rib_module_classed st vs c : classed (rib_module st vs c).
+  Proof. classed_tac ltac:(unf_rib H). Qed.
+  Lemma fib_module_classed st vs c : classed (fib_module st vs c).
+  Proof. classed_tac ltac:(unf_fib H). Qed.
+  Lemma strat_module_classed st vs c : classed (strat_module st vs c).
+  Proof. classed_tac ltac:(unf_strat H). Qed.
+  Lemma cs_module_classed st vs c : classed (cs_module st vs c).
+  Proof. classed_tac ltac:(unf_cs H). Qed.
+  Lemma status_module_classed st vs c : classed (status_module st vs c).
+  Proof. classed_tac ltac:(unf_status H). Qed.
+  Lemma face_module_classed st vs c : classed (face_module st vs c).
+  Proof. classed_tac ltac:(unf_face H). Qed.
+  Theorem run_classed st vs c : classed (run st vs c).
+  Proof.
+    apply run_cases; try (intros st' vs' r H; first [discriminate H | inv_ok H; reflexivity]);
+      auto using rib_module_classed, fib_module_classed, strat_module_classed, cs_module_classed, status_module_classed, face_module_classed.
+  Qed.
+
+  (* ------------------------------------------------------------------------------------------------
+     invariants kept by every command *)
+  Definition keeps (P : state -> bool) (st : state) (o : outcome) : Prop :=
+    P st = true -> forall st' vs' r, o = Ok st' vs' r -> P st' = true.
+
+  Ltac proj_simpl := cbn [s_rib s_fib s_strat s_cs s_faces set_rib_fib set_fib set_strat set_cs set_faces] in *.
+
+  (* --- strategy table: only known strategies, root keeps one --- *)
+  Ltac same_tac P unf :=
+    intros Hinv st' vs' r H; unf; cbv beta zeta in H; cases_of H; inv_ok H;
+    first [exact Hinv | unfold P in *; proj_simpl; exact Hinv].
+
+  Lemma rib_module_strat st vs c : keeps strat_ok st (rib_module st vs c).
+  Proof. same_tac strat_ok ltac:(unf_rib H). Qed.
+  Lemma fib_module_strat st vs c : keeps strat_ok st (fib_module st vs c).
+  Proof. same_tac strat_ok ltac:(unf_fib H). Qed.
+  Lemma cs_module_strat st vs c : keeps strat_ok st (cs_module st vs c).
+  Proof. same_tac strat_ok ltac:(unf_cs H). Qed.
+  Lemma status_module_strat st vs c : keeps strat_ok st (status_module st vs c).
+  Proof. same_tac strat_ok ltac:(unf_status H). Qed.
+  Lemma face_module_strat st vs c : keeps strat_ok st (face_module st vs c).
+  Proof. same_tac strat_ok ltac:(unf_face H). Qed.
+
+  Lemma strat_module_strat st vs c : keeps strat_ok st (strat_module st vs c).
+  Proof.
+    intros Hinv st' vs' r H. unf_strat H. cbv beta zeta in H. cases_of H; inv_ok H; try exact Hinv;
+      unfold strat_ok in *; proj_simpl; apply andb_true_iff in Hinv as [Hk Hr]; apply andb_true_iff; split.
+    (* set with an explicit version *)
+    - apply strat_known_set; [exact Hk|].
+      match goal with
+      | Hp : negb (is_prefix strategy_prefix ?sn) || _ = false, Hn : nth_error ?sn (length strategy_prefix) = Some ?sc,
+        Hs : strategy_versions k_strategies ?sc = Some ?av, He : existsb (N.eqb ?v) ?av = true |- _ =>
+          apply orb_false_iff in Hp as [Hp _]; apply negb_false_iff in Hp;
+          exact (known_accept sn sc av v Hp Hn Hs (existsb_eqb_in _ _ He))
+      end.
+    - apply root_set; exact Hr.
+    (* set without a version: the newest one *)
+    - apply strat_known_set; [exact Hk|].
+      match goal with
+      | Hp : negb (is_prefix strategy_prefix ?sn) || _ = false, Hn : nth_error ?sn (length strategy_prefix) = Some ?sc,
+        Hs : strategy_versions k_strategies ?sc = Some ?av, Hm : max_version ?av = Some ?v |- _ =>
+          apply orb_false_iff in Hp as [Hp _]; apply negb_false_iff in Hp;
+          exact (known_accept sn sc av v Hp Hn Hs (max_version_in _ _ Hm))
+      end.
+    - apply root_set; exact Hr.
+    (* unset of a non-root name *)
+    - apply strat_known_unset; exact Hk.
+    - apply root_unset; [discriminate | exact Hr].
+  Qed.
+
+  (* --- faces stay usable (MTU above the largest link overhead) --- *)
+  Lemma face_module_usable st vs c : keeps faces_usable st (face_module st vs c).
+  Proof.
+    intros Hinv st' vs' r H. unf_face H. cbv beta zeta in H. cases_of H; inv_ok H; try exact Hinv;
+      unfold faces_usable in *; proj_simpl; try (apply forallb_face_del; exact Hinv);
+      (apply forallb_face_put; [exact Hinv|]);
+      match goal with Hg : face_get _ _ = Some ?f |- _ => pose proof (face_get_forallb _ _ _ _ Hinv Hg) as Hf end;
+      unfold face_usable in *; cbn [f_ndnlp f_mtu];
+      match goal with Hn : negb (f_ndnlp ?f) = false |- _ => apply negb_false_iff in Hn; rewrite Hn in *; cbn [negb orb] in * end;
+      try exact Hf;
+      destruct bounds_ok as [B1 [_ [B3 _]]]; apply N.ltb_lt;
+      match goal with Hm : _ || mtu_too_small _ _ = false, Ha : a_mtu _ = Some _ |- _ =>
+        apply orb_false_iff in Hm as [_ Hm2]; unfold mtu_too_small in Hm2; rewrite Ha in Hm2; apply N.ltb_ge in Hm2 end;
+      try match goal with Hk : (k_max_ndn_packet_size <? _) = _ |- _ => clear Hk end; lia.
+  Qed.
+  Lemma rib_module_usable st vs c : keeps faces_usable st (rib_module st vs c).
+  Proof. same_tac faces_usable ltac:(unf_rib H). Qed.
+  Lemma fib_module_usable st vs c : keeps faces_usable st (fib_module st vs c).
+  Proof. same_tac faces_usable ltac:(unf_fib H). Qed.
+  Lemma cs_module_usable st vs c : keeps faces_usable st (cs_module st vs c).
+  Proof. same_tac faces_usable ltac:(unf_cs H). Qed.
+  Lemma status_module_usable st vs c : keeps faces_usable st (status_module st vs c).
+  Proof. same_tac faces_usable ltac:(unf_status H). Qed.
+  Lemma strat_module_usable st vs c : keeps faces_usable st (strat_module st vs c).
+  Proof. same_tac faces_usable ltac:(unf_strat H). Qed.
+  Theorem run_keeps_usable st vs c : keeps faces_usable st (run st vs c).
+  Proof.
+    apply run_cases; try (intros Hinv st' vs' r H; first [discriminate H | inv_ok H; exact Hinv]);
+      auto using rib_module_usable, fib_module_usable, strat_module_usable, cs_module_usable, status_module_usable, face_module_usable.
+  Qed.
+
+  (* --- CS capacity stays a non-negative count --- *)
+  Lemma cs_module_sane st vs c : keeps cs_sane st (cs_module st vs c).
+  Proof.
+    intros Hinv st' vs' r H. unf_cs H. cbv beta zeta in H. cases_of H; inv_ok H; try exact Hinv.
+    unfold cs_sane; proj_simpl. apply Z.leb_le.
+    match goal with Hc : (k_ContentStoreModule_config_max_capacity <? ?cap) = false |- _ => apply N.ltb_ge in Hc;
+      destruct bounds_ok as [_ [_ [_ B]]]; rewrite wrap64_small; lia end.
+  Qed.
+  Lemma rib_module_sane st vs c : keeps cs_sane st (rib_module st vs c).
+  Proof. same_tac cs_sane ltac:(unf_rib H). Qed.
+  Lemma fib_module_sane st vs c : keeps cs_sane st (fib_module st vs c).
+  Proof. same_tac cs_sane ltac:(unf_fib H). Qed.
+  Lemma face_module_sane st vs c : keeps cs_sane st (face_module st vs c).
+  Proof. same_tac cs_sane ltac:(unf_face H). Qed.
+  Lemma status_module_sane st vs c : keeps cs_sane st (status_module st vs c).
+  Proof. same_tac cs_sane ltac:(unf_status H). Qed.
+  Lemma strat_module_sane st vs c : keeps cs_sane st (strat_module st vs c).
+  Proof. same_tac cs_sane ltac:(unf_strat H). Qed.
+  Theorem run_keeps_cs st vs c : keeps cs_sane st (run st vs c).
+  Proof.
+    apply run_cases; try (intros Hinv st' vs' r H; first [discriminate H | inv_ok H; exact Hinv]);
+      auto using rib_module_sane, fib_module_sane, strat_module_sane, cs_module_sane, status_module_sane, face_module_sane.
+  Qed.
+
+  (* --- face table well-formedness (non-NDNLP link services are null/internal only) --- *)
+  Lemma face_module_wf st vs c : keeps faces_wf st (face_module st vs c).
+  Proof.
+    intros Hinv st' vs' r H. unf_face H. cbv beta zeta in H. cases_of H; inv_ok H; try exact Hinv;
+      unfold faces_wf in *; proj_simpl; try (apply forallb_face_del; exact Hinv);
+      (apply forallb_face_put; [exact Hinv|]);
+      match goal with Hg : face_get _ _ = Some ?f |- _ => pose proof (face_get_forallb _ _ _ _ Hinv Hg) as Hf end;
+      unfold face_wf in *; cbn [f_ndnlp f_rscheme]; exact Hf.
+  Qed.
+  Lemma rib_module_wf st vs c : keeps faces_wf st (rib_module st vs c).
+  Proof. same_tac faces_wf ltac:(unf_rib H). Qed.
+  Lemma fib_module_wf st vs c : keeps faces_wf st (fib_module st vs c).
+  Proof. same_tac faces_wf ltac:(unf_fib H). Qed.
+  Lemma cs_module_wf st vs c : keeps faces_wf st (cs_module st vs c).
+  Proof. same_tac faces_wf ltac:(unf_cs H). Qed.
+  Lemma status_module_wf st vs c : keeps faces_wf st (status_module st vs c).
+  Proof. same_tac faces_wf ltac:(unf_status H). Qed.
+  Lemma strat_module_wf st vs c : keeps faces_wf st (strat_module st vs c).
+  Proof. same_tac faces_wf ltac:(unf_strat H). Qed.
+  Theorem run_keeps_wf st vs c : keeps faces_wf st (run st vs c).
+  Proof.
+    apply run_cases; try (intros Hinv st' vs' r H; first [discriminate H | inv_ok H; exact Hinv]);
+      auto using rib_module_wf, fib_module_wf, strat_module_wf, cs_module_wf, status_module_wf, face_module_wf.
+  Qed.
+
+  (* ------------------------------------------------------------------------------------------------
+     mgmt_total: no command makes the management thread panic *)
+  Ltac nat_facts :=
+    repeat match goal with
+    | Hx : negb _ = false |- _ => apply negb_false_iff in Hx
+    | Hx : negb _ = true |- _ => apply negb_true_iff in Hx
+    | Hx : (_ <? _)%nat = false |- _ => apply Nat.ltb_ge in Hx
+    | Hx : (_ <? _)%nat = true |- _ => apply Nat.ltb_lt in Hx
+    | Hx : (_ <=? _)%nat = false |- _ => apply Nat.leb_gt in Hx
+    | Hx : (_ <=? _)%nat = true |- _ => apply Nat.leb_le in Hx
+    | Hx : (_ =? _)%nat = true |- _ => apply Nat.eqb_eq in Hx
+    | Hx : nth_error _ _ = None |- _ => apply nth_error_None in Hx
+    | Hx : _ || _ = false |- _ => apply orb_false_iff in Hx as [? ?]
+    end.
+  Ltac total_tac unf :=
+    intros Hlen Hwf H; unf; unfold verb_of in H; cbv beta zeta in H; cases_of H;
+    nat_facts; rewrite ?plen_is_2 in *; try lia.
+
+  Lemma rib_module_total st vs c : (plen + 2 <= length (c_name c))%nat -> faces_wf st = true -> rib_module st vs c <> Panic.
+  Proof. total_tac ltac:(unf_rib H). Qed.
+  Lemma fib_module_total st vs c : (plen + 2 <= length (c_name c))%nat -> faces_wf st = true -> fib_module st vs c <> Panic.
+  Proof. total_tac ltac:(unf_fib H). Qed.
+  Lemma cs_module_total st vs c : (plen + 2 <= length (c_name c))%nat -> faces_wf st = true -> cs_module st vs c <> Panic.
+  Proof. total_tac ltac:(unf_cs H). Qed.
+  Lemma status_module_total st vs c : (plen + 2 <= length (c_name c))%nat -> faces_wf st = true -> status_module st vs c <> Panic.
+  Proof. total_tac ltac:(unf_status H). Qed.
+  Lemma strat_module_total st vs c : (plen + 2 <= length (c_name c))%nat -> faces_wf st = true -> strat_module st vs c <> Panic.
+  Proof. total_tac ltac:(unf_strat H). Qed.
+  Lemma face_module_total st vs c : (plen + 2 <= length (c_name c))%nat -> faces_wf st = true -> face_module st vs c <> Panic.
+  Proof.
+    total_tac ltac:(unf_face H).
+    (* the type assertion on the link service: excluded by face-table well-formedness *)
+    all: match goal with Hg : face_get _ _ = Some ?f |- _ => pose proof (face_get_forallb _ _ _ _ Hwf Hg) as Hf end;
+      unfold face_wf in Hf;
+      match goal with Ha : f_ndnlp ?f = false, Hb : (f_rscheme ?f =? sch_null) = false, Hc : (f_rscheme ?f =? sch_internal) = false |- _ =>
+        rewrite Ha, Hb, Hc in Hf end;
+      discriminate Hf.
+  Qed.
+
+  Theorem run_total st vs c : faces_wf st = true -> run st vs c <> Panic.
+  Proof.
+    intros Hwf. unfold Model.run. cbv zeta.
+    destruct (length (c_name c) <? plen + N.to_nat k_run_min_extra)%nat eqn:Hl; [discriminate|].
+    apply Nat.ltb_ge in Hl. replace (N.to_nat k_run_min_extra) with 2%nat in Hl by reflexivity.
+    destruct (negb (is_prefix local_prefix (c_name c)) && _); [discriminate|].
+    destruct (nth_error (c_name c) plen) eqn:Hn; [|apply nth_error_None in Hn; lia].
+    repeat match goal with |- (if ?x then _ else _) <> _ => destruct x end;
+      auto using rib_module_total, fib_module_total, strat_module_total, cs_module_total, status_module_total, face_module_total.
+    unfold ctl. discriminate.
+  Qed.
+
+  (* ------------------------------------------------------------------------------------------------
+     mgmt_authorised: state changes only under /localhost/nfd, or for rib under /localhop/nfd when enabled *)
+  Definition unchanged (st : state) (o : outcome) : Prop := forall st' vs' r, o = Ok st' vs' r -> st' = st.
+
+  Ltac guarded_tac m flag :=
+    intros Hloc st' vs' r H; unfold m in H; rewrite flag, Hloc in H; cbn [negb andb] in H; inv_ok H; reflexivity.
+  Lemma cs_module_guard st vs c : is_prefix local_prefix (c_name c) = false -> unchanged st (cs_module st vs c).
+  Proof. destruct local_only_flags as [F1 [F2 [F3 [F4 [F5 F6]]]]]. guarded_tac cs_module F1. Qed.
+  Lemma face_module_guard st vs c : is_prefix local_prefix (c_name c) = false -> unchanged st (face_module st vs c).
+  Proof. destruct local_only_flags as [F1 [F2 [F3 [F4 [F5 F6]]]]]. guarded_tac Model.face_module F2. Qed.
+  Lemma fib_module_guard st vs c : is_prefix local_prefix (c_name c) = false -> unchanged st (fib_module st vs c).
+  Proof. destruct local_only_flags as [F1 [F2 [F3 [F4 [F5 F6]]]]]. guarded_tac fib_module F3. Qed.
+  Lemma status_module_guard st vs c : is_prefix local_prefix (c_name c) = false -> unchanged st (status_module st vs c).
+  Proof. destruct local_only_flags as [F1 [F2 [F3 [F4 [F5 F6]]]]]. guarded_tac status_module F4. Qed.
+  Lemma strat_module_guard st vs c : is_prefix local_prefix (c_name c) = false -> unchanged st (strat_module st vs c).
+  Proof. destruct local_only_flags as [F1 [F2 [F3 [F4 [F5 F6]]]]]. guarded_tac strat_module F5. Qed.
+
+  Theorem run_authorised st vs c st' vs' r :
+    run st vs c = Ok st' vs' r -> st' = st \/ authorised allow (c_name c) = true.
+  Proof.
+    unfold authorised. destruct (is_prefix local_prefix (c_name c)) eqn:Hloc; [intros _; right; reflexivity|].
+    cbn [orb]. unfold Model.run. cbv zeta. destruct run_guard_flags as [G _]. rewrite G, Hloc. cbn [negb andb].
+    destruct (length (c_name c) <? plen + N.to_nat k_run_min_extra)%nat; [intros H; inv_ok H; left; reflexivity|].
+    destruct (allow && is_prefix nonlocal_prefix (c_name c)) eqn:Hnl; cbn [negb]; [|intros H; inv_ok H; left; reflexivity].
+    unfold is_rib_command, module_comp.
+    destruct (nth_error (c_name c) plen) as [mc|]; [|discriminate].
+    repeat match goal with |- (if ?x then _ else _) = _ -> _ => destruct x eqn:? end; intros H;
+      try (left; first [ exact (cs_module_guard _ _ _ Hloc _ _ _ H) | exact (face_module_guard _ _ _ Hloc _ _ _ H)
+                       | exact (fib_module_guard _ _ _ Hloc _ _ _ H) | exact (status_module_guard _ _ _ Hloc _ _ _ H)
+                       | exact (strat_module_guard _ _ _ Hloc _ _ _ H) ]);
+      try (unfold ctl in H; inv_ok H; left; reflexivity).
+    (* the rib module under /localhop/nfd with localhop management enabled *)
+    right. reflexivity.
+  Qed.
+
+  Theorem run_keeps_strat st vs c : keeps strat_ok st (run st vs c).
+  Proof.
+    apply run_cases; try (intros Hinv st' vs' r H; first [discriminate H | inv_ok H; exact Hinv]);
+      auto using rib_module_strat, fib_module_strat, strat_module_strat, cs_module_strat, status_module_strat, face_module_strat.
+  Qed.
+
+  (* ------------------------------------------------------------------------------------------------
+     datasets_exact: a status dataset (one segment) lists exactly the table it reports, under the expected name *)
+  Definition ds_exact (c : cmd) (o : outcome) : Prop := forall st' vs' r, o = Ok st' vs' r -> spec_dataset c r st' = true.
+  Ltac ds_tac unf :=
+    intros st' vs' r H; unf; cbv beta zeta in H; cases_of H; inv_ok H; cbn [spec_dataset];
+    first [ reflexivity | apply rib_eqb_spec; reflexivity | apply fib_eqb_spec; reflexivity | apply strat_eqb_spec; reflexivity
+          | apply N.eqb_refl | apply facestats_eqb_refl
+          | match goal with Hq : c_qdec _ = QOk _ |- _ => rewrite Hq end; apply facestats_eqb_refl ].
+  Lemma rib_module_ds st vs c : ds_exact c (rib_module st vs c).
+  Proof. ds_tac ltac:(unf_rib H). Qed.
+  Lemma fib_module_ds st vs c : ds_exact c (fib_module st vs c).
+  Proof. ds_tac ltac:(unf_fib H). Qed.
+  Lemma strat_module_ds st vs c : ds_exact c (strat_module st vs c).
+  Proof. ds_tac ltac:(unf_strat H). Qed.
+  Lemma cs_module_ds st vs c : ds_exact c (cs_module st vs c).
+  Proof. ds_tac ltac:(unf_cs H). Qed.
+  Lemma status_module_ds st vs c : ds_exact c (status_module st vs c).
+  Proof. ds_tac ltac:(unf_status H). Qed.
+  Lemma face_module_ds st vs c : ds_exact c (face_module st vs c).
+  Proof. ds_tac ltac:(unf_face H). Qed.
+  Theorem run_ds_exact st vs c : ds_exact c (run st vs c).
+  Proof.
+    apply run_cases; try (intros st' vs' r H; first [discriminate H | inv_ok H; reflexivity]);
+      auto using rib_module_ds, fib_module_ds, strat_module_ds, cs_module_ds, status_module_ds, face_module_ds.
+  Qed.
+
+  (* ------------------------------------------------------------------------------------------------
+     the model satisfies the whole step specification that the runner evaluates on the implementation *)
+  Theorem run_spec_step st vs c st' vs' r :
+    run st vs c = Ok st' vs' r -> spec_step allow st c r st' = true.
+  Proof.
+    intros H. unfold spec_step. repeat (apply andb_true_iff; split).
+    - unfold spec_authorised. destruct (run_authorised _ _ _ _ _ _ H) as [E|E];
+        [subst; rewrite state_eqb_refl; reflexivity | rewrite E; apply orb_true_r].
+    - unfold spec_reject_pure. destruct (accepted r) eqn:A; [reflexivity|].
+      rewrite (run_pure _ _ _ _ _ _ H A). apply state_eqb_refl.
+    - exact (run_classed _ _ _ _ _ _ H).
+    - exact (run_ds_exact _ _ _ _ _ _ H).
+    - destruct (strat_known (s_strat st) && root_has_strategy (s_strat st)) eqn:E; [|reflexivity].
+      exact (run_keeps_strat _ _ _ E _ _ _ H).
+    - destruct (faces_usable st) eqn:E; [|reflexivity]. exact (run_keeps_usable _ _ _ E _ _ _ H).
+    - destruct (cs_sane st) eqn:E; [|reflexivity]. exact (run_keeps_cs _ _ _ E _ _ _ H).
+  Qed.
+
+
+  (* ------------------------------------------------------------------------------------------------
+     all histories: from a state satisfying the invariants no command sequence panics, every step meets the step
+     specification, and the invariants hold after every step *)
+  Fixpoint run_trace (st : state) (vs : vers) (cs : list cmd) : option (list (state * cmd * resp * state)) :=
+    match cs with
+    | [] => Some []
+    | c :: cs' =>
+      match run st vs c with
+      | Panic => None
+      | Ok st' vs' r => match run_trace st' vs' cs' with Some tr => Some ((st, c, r, st') :: tr) | None => None end
+      end
+    end.
+
+  Lemma inv_split st : inv st = true <-> strat_ok st = true /\ faces_usable st = true /\ cs_sane st = true /\ faces_wf st = true.
+  Proof. unfold inv. rewrite !andb_true_iff. tauto. Qed.
+
+  Lemma run_keeps_inv st vs c st' vs' r : inv st = true -> run st vs c = Ok st' vs' r -> inv st' = true.
+  Proof.
+    intros Hi H. apply inv_split in Hi as [H1 [H2 [H3 H4]]]. apply inv_split. repeat split.
+    - exact (run_keeps_strat _ _ _ H1 _ _ _ H).
+    - exact (run_keeps_usable _ _ _ H2 _ _ _ H).
+    - exact (run_keeps_cs _ _ _ H3 _ _ _ H).
+    - exact (run_keeps_wf _ _ _ H4 _ _ _ H).
+  Qed.
+
+  Definition step_good (t : state * cmd * resp * state) : Prop :=
+    let '(pre, c, r, post) := t in spec_step allow pre c r post = true /\ inv post = true.
+
+  Theorem all_histories cs : forall st vs, inv st = true ->
+    exists tr, run_trace st vs cs = Some tr /\ length tr = length cs /\ Forall step_good tr.
+  Proof.
+    induction cs as [|c cs IH]; intros st vs Hi; simpl.
+    - exists []. repeat split. constructor.
+    - destruct (run st vs c) as [st' vs' r|] eqn:H.
+      + pose proof (run_keeps_inv _ _ _ _ _ _ Hi H) as Hi'.
+        destruct (IH st' vs' Hi') as [tr [Ht [Hl Hf]]]. rewrite Ht.
+        exists ((st, c, r, st') :: tr). repeat split; [simpl; congruence|].
+        constructor; [|exact Hf]. split; [exact (run_spec_step _ _ _ _ _ _ H) | exact Hi'].
+      + exfalso. apply inv_split in Hi as [_ [_ [_ Hw]]]. exact (run_total st vs c Hw H).
+  Qed.
+End Proofs.
